@@ -432,10 +432,28 @@ class Parser:
         for node in ast.walk(tree):
             for field in self._IDENTIFIER_FIELDS.intersection(node._fields):
                 value = getattr(node, field)
+                for name in value if isinstance(value, list) else [value]:
+                    if isinstance(name, str) and not name.isascii():
+                        self._check_identifier(name, node)
                 if isinstance(value, str) and not value.isascii():
                     setattr(node, field, unicodedata.normalize("NFKC", value))
                 elif isinstance(value, list) and any(isinstance(v, str) and not v.isascii() for v in value):
                     setattr(node, field, [unicodedata.normalize("NFKC", v) if isinstance(v, str) else v for v in value])
+
+    def _check_identifier(self, name: str, node: ast.AST) -> None:
+        """A NAME token is a run of word characters; not every such run is an identifier ('\u00b2', '\u0661\u0662', 'a\u00b2')."""
+        for part in name.split("."):  # module paths of imports are dotted
+            if part and part != "*" and not part.isidentifier():
+                at = next((i for i in range(len(part)) if not part[: i + 1].isidentifier()), 0)
+                message = f"invalid character '{part[at]}' (U+{ord(part[at]):04X})"
+                first = (getattr(node, "lineno", 0), getattr(node, "col_offset", 0))
+                for tok in self._tokenizer._tokens:
+                    if tok.type == Token.NAME and tok.string == part and tok.start >= first:
+                        where = (tok.start[0], tok.start[1] + at)
+                        self.raise_syntax_error_known_location(message, tok._replace(start=where, end=(where[0], where[1] + 1)))
+                if hasattr(node, "lineno"):
+                    self.raise_syntax_error_known_location(message, node)
+                self.raise_syntax_error(message)
 
     def check_version(self, min_version: tuple[int, ...], error_msg: str, node: T) -> T:
         """Note that a rule needs a higher python version than the one asked for.
